@@ -47,12 +47,16 @@ def make(ck, rnd, n):
     recs, metas = [], []
     for t in range(n):
         xorish = rnd.random() < 0.4
-        c = gen.gen_circuit(rnd, max_gates=ck.pick(8, 14), max_ff=2, kinds=['XOR2', 'XNOR2', 'XOR3', 'XOR4', 'BUF1', 'INV1'] if xorish else None)
+        parity = rnd.random() < 0.3
+        if parity:
+            c = gen.parity_circuit(rnd)
+        else:
+            c = gen.gen_circuit(rnd, max_gates=ck.pick(8, 14), max_ff=2, kinds=['XOR2', 'XNOR2', 'XOR3', 'XOR4', 'BUF1', 'INV1'] if xorish else None)
         lanes = rnd.choice([1, 2, 4])
-        d = gen.rand_delays(rnd, c, vals=(0, 1, 2, 3, 5))
+        d = gen.rand_delays(rnd, c, vals=(0, 1) if parity else (0, 1, 2, 3, 5))
         T2 = rnd.choice([2 * wrec.INF, 2 * rnd.randint(0, 20), 2 * rnd.randint(0, 20) + 1, 2 * rnd.randint(0, 12)])
         actrl = wsim.rand_actrl(rnd, c).tolist() if rnd.random() < 0.7 else None
-        mt = dict(circuit=gen.circuit_state(c), lanes=lanes, delays=d.tolist(), caps=rnd.choice([4, 4, 8]), inw=wrec.rand_inputs(rnd, c, lanes, multi=True, tmax=12),
+        mt = dict(circuit=gen.circuit_state(c), lanes=lanes, delays=d.tolist(), caps=rnd.choice([4, 4, 8]), inw=wrec.rand_inputs(rnd, c, lanes, multi=True, tmax=40 if parity else 12),
                   cls=rnd.choice(['WaveSim', 'WaveSimCuda']), T2=T2, actrl=actrl, warm=wrec.rand_inputs(rnd, c, lanes, multi=True, tmax=12) if rnd.random() < 0.4 else None)
         mt['desc'] = '%s caps=%s T=%s actrl=%s' % (mt['cls'], mt['caps'], 'TMAX' if T2 >= 2 * wrec.INF else T2 / 2, actrl is not None)
         recs.append(build(mt))
